@@ -76,6 +76,13 @@ pub fn malform(r: &mut Rng, e: &mut EchoReq) -> Option<String> {
                     (4, "missing%20field%20%60e%60"),
                     (2, "invalid%20type:%20string"),
                     (3, "duplicate%20field%20%60b%60"),
+                    // a valid prefix followed by a raw sub-delimiter and more
+                    (2, "12;junk"),
+                    (2, "7;v=1"),
+                    (3, "true;x"),
+                    (4, "Red;"),
+                    (2, "5,6"),
+                    (3, "false&b=true"),
                     (2, "abc"),
                     (2, "9223372036854775808"),
                     (2, "-9223372036854775809"),
